@@ -875,7 +875,7 @@ class LOAD(AbstractOperation):
     def execute(self, vm):
         target, offset, address = self.args
 
-        result = vm.load_memory(vm.load_register(address) + offset)
+        result = vm.load_memory((vm.load_register(address) + offset) & 0xFFFF)
         vm.set_zero_and_sign(result)
         vm.store_register(target, result)
         vm.pc += 1
@@ -896,7 +896,9 @@ class STORE(AbstractOperation):
     def execute(self, vm):
         source, offset, address = self.args
 
-        vm.store_memory(vm.load_register(address) + offset, vm.load_register(source))
+        vm.store_memory(
+            (vm.load_register(address) + offset) & 0xFFFF, vm.load_register(source)
+        )
         vm.pc += 1
 
 
